@@ -156,6 +156,22 @@ impl Obs {
     }
 }
 
+/// Intern a (low-cardinality) label so that it can be used as a class name.
+pub fn intern(s: &str) -> &'static str {
+    static SET: Mutex<Option<std::collections::HashMap<String, &'static str>>> = Mutex::new(None);
+    let mut g = SET.lock().unwrap();
+    let m = g.get_or_insert_with(Default::default);
+    if let Some(v) = m.get(s) {
+        return v;
+    }
+    if m.len() > 200 {
+        return "other";
+    }
+    let leaked: &'static str = Box::leak(s.to_string().into_boxed_str());
+    m.insert(s.to_string(), leaked);
+    leaked
+}
+
 pub fn hash_of<H: Hash + ?Sized>(h: &H) -> u64 {
     let mut s = std::collections::hash_map::DefaultHasher::new();
     h.hash(&mut s);
